@@ -275,7 +275,7 @@ def check_float(np, oem, ck, case, limits=True):
     S_m = S_a - G_m @ KSa
     A_m = G_m @ K
     nS, nG = norm2(np, S_n), norm2(np, G_n)
-    C = 200.0 * max(m, n)
+    C = 20.0 * max(m, n)
     dM = C * U * (ky * nK ** 2 * nYi + ka * nAi)
     tolS = 2 * (nS ** 2 * dM + C * U * kM * nS)
     tolG = tolS * nK * nYi + 2 * C * U * ky * nS * nK * nYi
@@ -315,6 +315,9 @@ def check_float(np, oem, ck, case, limits=True):
             return
         err = norm2(np, got - want)
         ck.count("compared/" + name)
+        if tol > 0 and hasattr(ck, "extra_cov"):
+            mx = ck.extra_cov.setdefault("max_error_over_bound", {})
+            mx[name] = max(mx.get(name, 0.0), round(err / tol, 6))
         if err > tol + 1e-300:
             bad.append((name, f"{what}: ‖real − reference‖₂ = {err:.3e} > bound {tol:.3e} (reference norm {scale:.3e}; n={n}, m={m}, "
                               f"cond Sa={ka:.2e} Sy={ky:.2e} M={kM:.2e})"))
@@ -551,19 +554,22 @@ def _brief(case):
 # ----------------------------------------------------------------------------- driver
 def run_case(np, oem, ck, case, frac_model, origin="generated"):
     if case.get("kind") == "int":
-        bad, _ = check_int(np, oem, ck, case, frac_model)
+        bad, real = check_int(np, oem, ck, case, frac_model)
         # the double-precision oracle applies to integer matrices as well
         bad2, _ = check_float(np, oem, ck, case, limits=False)
         bad += bad2
     else:
-        bad, _ = check_float(np, oem, ck, case)
+        bad, real = check_float(np, oem, ck, case)
+    A = real.get("A")
+    dfs = float(np.trace(A)) if A is not None and not isinstance(A, tuple) and A.ndim == 2 and A.shape[0] == A.shape[1] else None
     n, m = case["n"], case["m"]
     kinds = case.get("kinds", ["?", "?", "?"])
     nz = any(any(v != 0 for v in row) for row in case["K"])
     cls = "under" if m < n else "square" if m == n else "over"
     key = (case.get("kind"), n, m, kinds[0], hash(json.dumps(case["K"]))) if nz else None
     ck.case(key=key, kind=f"{case.get('kind')}/{cls}/K={kinds[0]}",
-            sample={"n": n, "m": m, "K_kind": kinds[0], "Sa_kind": kinds[1], "Sy_kind": kinds[2], "origin": origin})
+            sample={"n": n, "m": m, "K_kind": kinds[0], "Sa_kind": kinds[1], "Sy_kind": kinds[2], "origin": origin,
+                    "trace_A(degrees of freedom for signal)": dfs})
     seen = set()
     for sig, msg in bad:
         if sig in seen:
